@@ -556,6 +556,58 @@ def check_result(case):
         for i in range(L.py_size()):
             E.py_add_schnitz(L.py_get_schnitz(i))
         L = E
+    if what == "schnitz_with_parent":
+        # a cell pickled on its own takes its relatives with it: its mother link must survive
+        kids = [i for i, r in enumerate(recs) if r["parent"] is not None]
+        if not kids:
+            res.skip = "lineage has no daughter"
+            return res
+        k = kids[case["seed"] % len(kids)]
+        s0 = L.py_get_schnitz(k)
+        c = clone_chain(res, s0, how, "Schnitz")
+        if c is None:
+            return res
+        p0, pc = s0.py_get_parent(), c.py_get_parent()
+        if pc is None:
+            res.fail(("result_clone_differs", "Schnitz", "parent_link_lost"), schnitz=k)
+            return res
+        for name, f in (("time", lambda z: z.py_get_time()), ("data", lambda z: z.py_get_data()), ("volume", lambda z: z.py_get_volume())):
+            if not arrays_equal(f(s0), f(c)) or not arrays_equal(f(p0), f(pc)):
+                res.fail(("result_clone_differs", "Schnitz", name), schnitz=k)
+                return res
+        if not any(d is c for d in pc.py_get_daughters()):
+            res.fail(("result_clone_differs", "Schnitz", "links_not_mutual"), schnitz=k)
+        res.nontrivial = True
+        return res
+    if what == "one_directional_links":
+        # hand-made lineage (as from image analysis): daughters know their mother, the mother's daughter slots stay empty
+        E = ExperimentalLineage({s: i for i, s in enumerate(ls["base"]["species"])})
+        made = []
+        for r in recs[:7]:
+            made.append(Schnitz(r["time"].copy(), r["data"].copy(), r["volume"].copy()))
+        for i, r in enumerate(recs[:7]):
+            if r["parent"] is not None and r["parent"] < len(made):
+                made[i].py_set_parent(made[r["parent"]])
+        for m in made:
+            E.py_add_schnitz(m)
+        Ec = clone_chain(res, E, how, "ExperimentalLineage")
+        if Ec is None:
+            return res
+        ra, rb = lingen.lineage_records(E), lingen.lineage_records(Ec)
+        if len(ra) != len(rb):
+            res.fail(("result_clone_differs", "ExperimentalLineage", "size"))
+            return res
+        for i, (x, y) in enumerate(zip(ra, rb)):
+            if x["parent"] != y["parent"] or x["daughters"] != y["daughters"]:
+                res.fail(("result_clone_differs", "ExperimentalLineage", "one_directional_links"), schnitz=i,
+                         a=[x["parent"], x["daughters"]], b=[y["parent"], y["daughters"]])
+                return res
+            for kk in ("time", "data", "volume"):
+                if not arrays_equal(x[kk], y[kk]):
+                    res.fail(("result_clone_differs", "ExperimentalLineage", kk), schnitz=i)
+                    return res
+        res.nontrivial = any(r["parent"] is not None for r in ra)
+        return res
     if what == "lineage_via_schnitz":
         root = L.py_get_schnitz(0)
         c_root = clone_chain(res, root, how, "Schnitz")
@@ -666,16 +718,23 @@ def simulable_models(draw):
             tree = ["div", tree, den]
             rx = gen.general(rx["r"], rx["p"], tree)
         if rx["p"] and draw(st.integers(0, 2)) == 0:
-            typ = draw(st.sampled_from(["fixed", "gaussian", "gamma"]))
+            # "none": a delayed part without a delay distribution (delivered at once) is still delayed stoichiometry
+            typ = draw(st.sampled_from(["fixed", "gaussian", "gamma", "none"]))
             if typ == "fixed":
                 pd = {"delay": b.value_entry(gen.logfl(0.05, 3))}
             elif typ == "gaussian":
                 pd = {"mean": b.value_entry(gen.logfl(0.05, 3)), "std": b.value_entry(gen.logfl(0.02, 1))}
-            else:
+            elif typ == "gamma":
                 pd = {"k": b.value_entry(st.sampled_from([1.0, 2.0, 3.0])), "theta": b.value_entry(gen.logfl(0.05, 1.5))}
+            else:
+                pd = {}
             rx["delay"] = {"type": typ, "r": [], "p": list(rx["p"]), "pd": pd}
             rx["p"] = []
         b.reactions.append(rx)
+    if draw(st.integers(0, 3)) == 0:       # a model whose only delayed parts have no delay distribution
+        for rx in b.reactions:
+            if rx.get("delay") and rx["delay"]["type"] != "none":
+                rx["delay"] = {"type": "none", "r": [], "p": list(rx["delay"]["p"]), "pd": {}}
     dt = draw(st.sampled_from([0.125, 0.25, 0.5]))
     grid = [i * dt for i in range(draw(st.integers(4, 12)))]
     from vf.props import c08
@@ -752,9 +811,10 @@ def lineage_cases(draw):
 def result_cases(draw):
     what = draw(st.sampled_from(["ssa", "det", "delay", "volume", "delayvolume", "cellstate", "delaycellstate", "schnitz",
                                  "queue", "plain_states", "singlecell", "lineage", "lineage", "experimental",
-                                 "lineage_via_schnitz"]))
+                                 "lineage_via_schnitz", "schnitz_with_parent", "one_directional_links"]))
     case = {"kind": "result", "what": what, "chain": draw(chains()), "seed": draw(st.integers(1, 2 ** 40))}
-    if what in ("singlecell", "lineage", "experimental", "lineage_via_schnitz"):
+    if what in ("singlecell", "lineage", "experimental", "lineage_via_schnitz", "schnitz_with_parent",
+                "one_directional_links"):
         ls = draw(lingen.lineage_specs(max_pts=40))
         case.update(lspec=ls, grid=ls["grid"])
     elif what == "plain_states":
